@@ -28,13 +28,13 @@ VALUES: dict[str, list[str]] = {
     'drmloc': ['pro', 'cenc', 'moov', 'cenc-pro'],
     'bugs': ['saio'],
     'events': ['ping', 'scte35', 'ping,scte35'],
-    'failures': ['1', '3'],
+    'failures': ['1', '3', '0'],
     'verr': ['404=5', '503=7,504=9'],
     'aerr': ['404=5'],
     'terr': ['410=2'],
     'merr': ['503=2'],
     'vcorrupt': ['11:59:50Z'],
-    'frames': ['2'],
+    'frames': ['2', '0'],
     'clearkey__la_url': ['https://ck.test/lic?a=1&b=2', 'https://ck.test/p%20q/#frag', 'https://ck.test/a+b=c', 'https://ck.test/license?sig=ab%2Bcd%2F9'],
     'marlin__la_url': ['ms3://m.test/x?y=1&z=2', 'ms3://m.test/?title=big%20buck%20bunny'],
     'playready__la_url': ['https://pr.test/rights?cfg={cfgs}&x=1', 'https://pr.test/a b/c+d', 'https://pr.test/acquire?token=eyJh%3D%3D&next=https%3A%2F%2Fcdn.test%2Fok'],
